@@ -41,7 +41,15 @@ TRANSFORMS = {
     "shift(2^20,-2^10)": (1.0, (2.0 ** 20, -2.0 ** 10), None),
     "perturb-last": (1.0, (0.0, 0.0), (0.013, -0.007)),
     "perturb-first+shift": (1.0, (317.0, -211.0), (-0.0031, 0.0017)),
+    # non-dyadic scalings: mathematically parallel / collinear / touching configurations become so only up to rounding
+    # (the determinant is ~1e-17 instead of 0), which is how they arrive from real coordinates
+    "scale0.1": (0.1, (0.0, 0.0), None),
+    "scale1/3+shift(0.7,-0.3)": (1.0 / 3.0, (0.7, -0.3), None),
 }
+# segments of length ~1.5e-5: far above the library's absolute closeness tolerance (1e-8) for coordinates, so the
+# point/segment routines must still be exact; the segment/segment routine is NOT run there (its parallel test has an
+# absolute tolerance on a product of two differences, known finding D11)
+PS_ONLY = {"scale2^-16(ps only)": (2.0 ** -16, (0.0, 0.0), None)}
 
 
 def grid(tier):
@@ -58,7 +66,7 @@ def space(tier):
 def cases(tier):
     g = grid(tier)
     n = len(g)
-    for tf in TRANSFORMS:
+    for tf in list(TRANSFORMS) + ["scale2^-16(ps only)"]:
         for i in range(n):
             yield {"part": "ps", "tf": tf, "i": i, "tier": tier}
     for tf in TRANSFORMS:
@@ -69,7 +77,7 @@ def cases(tier):
 
 
 def apply_tf(tf, pts, which_perturb):
-    s, (dy, dx), pert = TRANSFORMS[tf]
+    s, (dy, dx), pert = TRANSFORMS[tf] if tf in TRANSFORMS else PS_ONLY[tf]
     out = []
     for idx, p in enumerate(pts):
         y, x = p[0] * s + dy, p[1] * s + dx
@@ -80,7 +88,8 @@ def apply_tf(tf, pts, which_perturb):
 
 
 def _tol(pts):
-    return 1e-9 * max(1.0, max(max(abs(p[0]), abs(p[1])) for p in pts))
+    m = max(max(abs(p[0]), abs(p[1])) for p in pts)
+    return 1e-9 * (m if (m >= 1.0 or m == 0.0) else max(m, 1e-6))
 
 
 def check_ps(p, s1, s2):
